@@ -747,3 +747,60 @@ def param_used(check: Check, mods: Iterable[Module], rule: str = "PARAM-USED") -
     check.control(f"{rule}:bad", bool(unused_parameters(fx.get("param_bad"))), True)
     check.control(f"{rule}:ok", bool(unused_parameters(fx.get("swapped_ok"))), False)
     return n
+
+
+# --------------------------------------------------------------------------- #
+# EMPTINESS-GUARD
+
+
+def swallowed_loops(fn: ast.AST) -> list[tuple[ast.If, ast.For]]:
+    """`if xs:` that guards a loop over xs *and* a sibling loop over some other collection."""
+    out = []
+    for i in walk_body(fn):
+        if not isinstance(i, ast.If) or i.orelse or not isinstance(i.test, (ast.Name, ast.Attribute)):
+            continue
+        g = unparse(i.test)
+        loops = [s for s in i.body if isinstance(s, ast.For)]
+        if len(loops) < 2:
+            continue
+
+        def over(l: ast.For) -> str:
+            it = l.iter
+            while isinstance(it, ast.Call) and it.args and isinstance(it.func, (ast.Name, ast.Attribute)) and (
+                    (isinstance(it.func, ast.Name) and it.func.id in ("enumerate", "list", "tuple", "sorted", "reversed"))):
+                it = it.args[0]
+            if isinstance(it, ast.Call) and isinstance(it.func, ast.Attribute) and it.func.attr in ("items", "values", "keys"):
+                it = it.func.value
+            return unparse(it)
+
+        own = [l for l in loops if over(l) == g]
+        other = [l for l in loops if over(l) != g]
+        if own and other:
+            out.append((i, other[0]))
+    return out
+
+
+def emptiness_guard(check: Check, funcs: Iterable[ast.AST], rule: str = "EMPTINESS-GUARD") -> int:
+    check.rule(
+        rule,
+        "`if xs:` around `for x in xs` is a harmless shortcut; when the same `if` also encloses a second loop "
+        "over a *different* collection, that loop no longer runs when xs is empty - the check it performs on "
+        "every element of the other collection (a required argument the interface field does not declare) is "
+        "skipped exactly in the case where every element should be reported",
+    )
+    n = 0
+    for fn in funcs:
+        ifs = [i for i in walk_body(fn) if isinstance(i, ast.If) and not i.orelse and isinstance(i.test, (ast.Name, ast.Attribute))
+               and sum(isinstance(s, ast.For) for s in i.body) >= 1]
+        if not ifs:
+            continue
+        bad = swallowed_loops(fn)
+        n += 1
+        check.ob(rule, fn, f"{getattr(fn, 'name', '?')}: emptiness guards enclose only their own loop", not bad,
+                 f"{len(ifs)} guarded loop(s)" if not bad else
+                 f"`if {unparse(bad[0][0].test)}:` (line {bad[0][0].lineno}) also encloses `for {unparse(bad[0][1].target)} in {unparse(bad[0][1].iter)}`",
+                 nontrivial=bool(bad))
+    fx = fixture("generic_controls")
+    check.control(f"{rule}:bad", bool(swallowed_loops(fx.get("guard_bad"))), True)
+    check.control(f"{rule}:ok", bool(swallowed_loops(fx.get("guard_ok"))), False)
+    return n
